@@ -58,6 +58,7 @@ def run(ctx, only_type_id=False):
     ctx.floor(R, "PropertyValue variants", len(vs), 7)
     if only_type_id:
         return
+    header_tables(ctx)
 
     R = "SIZE-1"
     ctx.rule(R, "for each fixed-size variant, the bytes emitted by its write arm on every success path equal its size_including_padding entry and are a "
@@ -263,3 +264,40 @@ def summary_ids(ctx, rule="PROP-ID"):
     pr = [args for b, n, args, t in symcalls(prog, r, S) if n.endswith("PropertyValue::read")]
     ok = len(pr) == 2 and "Default>::default" in pr[0][1] and "Default>::default" not in pr[1][1]
     ctx.check(ok, R, "read uses the parsed code page", "", "PropertySet::read decodes values with %s" % [a[1][:60] for a in pr], r.loc(), fn=r.name)
+
+
+def header_tables(ctx, rule="HDR-TAB"):
+    """small number tables of the property-set header (C10, C02)"""
+    prog = ctx.prog
+    ctx.rule(rule, "PropertyFormatVersion::version_number is {V0: 0, V1: 1}; the operating-system field is read and written through mutually inverse tables with the format's numbering "
+                   "{0 Win16, 1 Macintosh, 2 Win32}: a header read from a file is written back unchanged")
+    f = prog.fn(PS + "PropertyFormatVersion::version_number")
+    tab = tables.enum_table(prog, f, "internal::propset::PropertyFormatVersion")
+    got = {k: (v[1] if v and v[0] == "int" else None) for k, v in (tab or {}).items()}
+    ctx.check(got == {"V0": 0, "V1": 1}, rule, "format version numbers", str(got), "version_number maps %s, the format uses V0 -> 0, V1 -> 1" % got, f.loc(), fn=f.name, key=rule + "|version")
+    REF = {"Win16": 0, "Macintosh": 1, "Win32": 2}
+    r = prog.fn(PS + "PropertySet::read")
+    w = prog.fn(PS + "PropertySet::write")
+    Sr, Sw = Sym(prog, r), Sym(prog, w)
+    rd = {}
+    for bl in r.blocks:
+        if bl["cleanup"] or bl["term"]["t"] != "switch":
+            continue
+        for v, tg in bl["term"]["cases"]:
+            for st in r.blocks[tg]["stmts"]:
+                rr = st["rhs"]
+                if rr["rv"] == "agg" and (rr.get("adt") or "").endswith("OperatingSystem"):
+                    rd[rr["variant"]] = v
+    wr = {}
+    vs_os = tables.enum_variants(prog, "msi", "internal::propset::OperatingSystem") or {}
+    for bl in w.blocks:
+        if bl["cleanup"]:
+            continue
+        for st in bl["stmts"]:
+            o = st["rhs"].get("ops", [{}])[0] if st["rhs"]["rv"] == "use" else {}
+            if o.get("k") == "const" and o.get("ty") == "u16" and "int" in o:
+                fs = [tr for (e, tr, g) in Sw.bool_facts_at(bl["id"]) if re.fullmatch(r"discr\(\*?p1\.os\)", e) and not isinstance(tr, bool) and tr[0] == "=="]
+                if fs and fs[-1][1] in vs_os:
+                    wr[vs_os[fs[-1][1]]] = o["int"]
+    ctx.check(rd == REF and wr == REF, rule, "operating-system numbers", "read %s write %s" % (rd, wr), "the operating-system field is read as %s and written as %s; the format uses %s and the two "
+              "tables must be inverse" % (rd, wr, REF), r.loc(), fn=r.name, key=rule + "|os")
